@@ -203,7 +203,7 @@ func init() {
 		CPUBudget: 6,
 		Level:     "exploration",
 		Rule: "inputs are all sequences of up to k lexemes of the full lexeme alphabet (glued and space-separated), every prefix and every single-token deletion, duplication and adjacent swap of generated valid templates, a table of truncations of every named kind under several prefixes, random lexeme/byte soups, and the same inputs as the single file of a template directory; " +
-			"monitors: logical progress of the lexer (position strictly grows, at most len+2 tokens), CPU/heap budget around parse and render (worker watchdog, confirmed alone with a doubled budget), panic monitor, and the contract 'program without errors, or >=1 error and every error has a line'; a prefix that cuts a generated block, string, object literal, comment or directive argument list (spans known from the generator) must be rejected. also every closed construct inside every unclosed opener (two levels), truncations followed by hostile bytes, 16 trees with circular references, 16 rounds of concurrent parsing of fresh inputs; 18 illegal characters; round 8: a second fault at every offset of 100 structurally wrong templates, truncations and closed constructs; scale: tokens and lists to 1 MiB; round 11: pinned mtimes, files rewritten in place; rounds 12-13: extension repeated in sibling names, every load error carries a line, faulty files in use, names that leave the template directory; distinct_nontrivial = distinct inputs (by hash)",
+			"monitors: logical progress of the lexer (position strictly grows, at most len+2 tokens), CPU/heap budget around parse and render (worker watchdog, confirmed alone with a doubled budget), panic monitor, and the contract 'program without errors, or >=1 error and every error has a line'; a prefix that cuts a generated block, string, object literal, comment or directive argument list (spans known from the generator) must be rejected. also every closed construct inside every unclosed opener (two levels), truncations followed by hostile bytes, 16 trees with circular references, 16 rounds of concurrent parsing of fresh inputs; 18 illegal characters; round 8: a second fault at every offset of 100 structurally wrong templates, truncations and closed constructs; scale: tokens and lists to 1 MiB; round 11: pinned mtimes, files rewritten in place; rounds 12-13: extension repeated in sibling names, every load error carries a line, faulty files in use, names that leave the template directory; round 17: escapes whose backslash ends a long text run; distinct_nontrivial = distinct inputs (by hash)",
 		Assumptions: []string{
 			"termination is decided as bounded progress: 20 s of CPU per input (median is microseconds), 2 GiB of heap",
 			"inputs are at most a few hundred bytes; recursion-depth exhaustion on megabyte inputs is out of reach and not claimed",
